@@ -131,7 +131,7 @@ def split_trace(path, nparts, boundary='{"e":"Reset"'):
         lines = f.readlines()
     if not lines:
         return []
-    starts = [i for i, l in enumerate(lines) if l.startswith(boundary)]
+    starts = [i for i, l in enumerate(lines) if boundary is None or l.startswith(boundary)]
     if not starts or starts[0] != 0:
         starts = [0] + starts
     per = max(1, len(lines) // nparts)
@@ -150,10 +150,11 @@ def split_trace(path, nparts, boundary='{"e":"Reset"'):
     return res
 
 
-def validate(module, cfg, cwd, trace_path, nparts=16, env=None, heap="3g", timeout=3000):
+def validate(module, cfg, cwd, trace_path, nparts=16, env=None, heap="3g", timeout=3000,
+             boundary='{"e":"Reset"'):
     """Validate an implementation log with a trace module, in parallel chunks.
     Returns dict(events, rejects=[(global_line, text)], states, transitions, wall)."""
-    parts = split_trace(trace_path, nparts)
+    parts = split_trace(trace_path, nparts, boundary)
     t = time.time()
     results = []
 
